@@ -68,7 +68,8 @@ SCALE_ARITH_OBLIGATIONS = [
     "= win_range; range_offset = offset; zoom by scale_factor, order 0, mode nearest, skipped for factor 1 "
     "(C15_gen_disparity_range_is_model)",
     "the first grids of Model.Multiscale.run_grids = the intervals the generated run_prepare + matching_cost_prepare hand "
-    "to allocate_cost_volume (C15_gen_first_grids)",
+    "to allocate_cost_volume (C15_gen_first_grids); the grids of every finer level of run_grids = next_grids applied to the "
+    "bounds the generated run_multiscale hands to disparity_range (C15_gen_finer_grids_user)",
 ]
 
 
